@@ -92,7 +92,8 @@ def unj(case):
 # search: one input against the oracle
 # ---------------------------------------------------------------------------
 
-CASE_TIMEOUT = 10.0      # seconds for one call into the real code (a hang is a failure, not a stuck check)
+CASE_TIMEOUT = 6.0       # seconds for one call into the real code (a hang is a failure, not a stuck check)
+_TMO = [CASE_TIMEOUT]
 
 
 def _C():
@@ -102,7 +103,7 @@ def _C():
 
 
 def T(fn, *a):
-    return vlib.with_timeout(fn, CASE_TIMEOUT, *a)
+    return vlib.with_timeout(fn, _TMO[0], *a)
 
 
 def check_object(c, dom, n, acc, what):
@@ -194,10 +195,13 @@ def shrink(case, budget=25.0):
     def fails(c):
         if time.time() > deadline:
             return False
+        _TMO[0] = 1.5
         try:
             return check_case(c) is not None
         except Exception:
             return False
+        finally:
+            _TMO[0] = CASE_TIMEOUT
     cur = json.loads(json.dumps(case))
     changed = True
     while changed:
@@ -457,8 +461,13 @@ def shards(cases, size=450):
 # observing the real code for the correspondence streams
 # ---------------------------------------------------------------------------
 
+HANGS = [0]
+
+
 def observe_generate(Choices, dom, n, S_order, build_only=False):
     """(raised?, isv, inf, first_none) of the real code; S_order = list (the set is rebuilt from it)."""
+    if HANGS[0] >= 3:
+        return "CaseTimeout", None, None, None, None
     try:
         if build_only:
             c = Choices(T(Choices.build_choices, list(dom), n, set(S_order)), n)
@@ -466,6 +475,9 @@ def observe_generate(Choices, dom, n, S_order, build_only=False):
             c = T(Choices.generate, list(dom), n, set(S_order))
         isv = [bool(c.is_valid(*v)) for v in itertools.product(dom, repeat=n)]
         inf = bool(c.infinite)
+    except vlib.CaseTimeout:
+        HANGS[0] += 1
+        return "CaseTimeout", None, None, None, None
     except Exception as e:
         return type(e).__name__, None, None, None, None
     try:
@@ -577,6 +589,10 @@ def search(ctx):
     for k, n, card in configs:
         st["exhaustive"][f"dom{k}_n{n}"]["max_cardinality"] = card if card is not None else "all subsets"
 
+    if len(failing) >= 3:       # enough concrete failing inputs: do not spend the budget on the other phases
+        st["aborted_early"] = "failures found in the exhaustive generate/build phase"
+        return failing, {"evaluations": ev, "distinct_nontrivial": n_exh, "rule": "aborted after the exhaustive phase (failures found)",
+                         "samples": [], "search": st}
     # -- exhaustive intersections: |dom|=2,n=2 all 256x256 pairs; sampled pairs for |dom|=3,n=2
     pairs = [(a, b) for a in range(256) for b in range(a, 256)]
     ijobs = [(2, 2, pairs[i:i + 2100]) for i in range(0, len(pairs), 2100)]
@@ -708,7 +724,7 @@ def _rand_worker(chunk):
         except Exception:
             p = 0       # let check_case report the exception
         case = jcase(kind, dom, n, S, S2)
-        if p > 40000:
+        if p > 20000:
             out.append((case, True, 0, 0, 0, None))
             continue
         r = check_case(case)
@@ -729,6 +745,7 @@ def correspondence(ctx):
     rng = ctx.rng
     mism = []
     st = {}
+    HANGS[0] = 0
     if not ctx.coq_ok:
         return ["model not built: Choice correspondence not run"], {"cases": 0}
     jobs = []       # (name, text, describe(index) -> str)
@@ -757,6 +774,8 @@ def correspondence(ctx):
     inputs.append(([0, 1, 2, 3], 3, [((0, 0), (0, 1)), ((0, 0), (1, 1), (3, 2)), ((1, 0), (1, 1), (3, 2)), ((2, 0), (1, 1), (3, 2)), ((3, 0), (1, 1), (3, 2))]))
 
     def small(dom, n, S, build):
+        if HANGS[0] >= 3:
+            return True
         try:
             if build:
                 p = 1
@@ -764,6 +783,9 @@ def correspondence(ctx):
                     p *= len(s)
             else:
                 p = prod_len_after_simplify(Choices, dom, S)
+        except vlib.CaseTimeout:
+            HANGS[0] += 1
+            return True
         except Exception:
             return True
         return p <= 300 and len(dom) ** n <= 1100
@@ -779,6 +801,10 @@ def correspondence(ctx):
             if build and rng.random() < 0.5:
                 continue
             err, isv, inf, fnone, c = observe_generate(Choices, dom, n, S_order, build)
+            if err == "CaseTimeout":
+                if HANGS[0] <= 3:
+                    mism.append(f"gen stream: real code does not terminate within {CASE_TIMEOUT}s on {jcase('build' if build else 'generate', dom, n, S)}")
+                continue
             if fnone == "raises":
                 mism.append(f"gen stream: real `first` raised on {jcase('generate', dom, n, S)}")
                 continue
@@ -841,9 +867,12 @@ def correspondence(ctx):
     for (dom, n, S) in inputs:
         if n == 0:
             continue
+        if HANGS[0] >= 3:
+            break
         try:
             steps, final = T(trace_simplify, Choices, dom, S)
         except vlib.CaseTimeout:
+            HANGS[0] += 1
             mism.append(f"pass stream: real simplification passes do not terminate on {jcase('simplify', dom, n, S)}")
             continue
         for (name, before, ret, after) in steps:
@@ -937,7 +966,8 @@ def correspondence(ctx):
         S_order = list(set(S))
         err, isv, inf, fnone, c = observe_generate(Choices, dom, n, S_order)
         if err not in (None, "IndexError"):
-            mism.append(f"edge stream: unexpected exception {err} on {jcase('generate', dom, n, S)}")
+            if err != "CaseTimeout" or HANGS[0] <= 3:
+                mism.append(f"edge stream: unexpected exception {err} on {jcase('generate', dom, n, S)}")
             continue
         n_edge_raise += bool(err)
         if err:
